@@ -20,6 +20,7 @@ type SetRec struct {
 type GetRec struct {
 	Key string
 	Hit bool
+	Age time.Duration // of a hit: how long ago (on the virtual clock) the entry was stored
 }
 
 // RecCache implements heimdall's cache.Cache. It records every Set and Get. Storage follows Redis
@@ -38,6 +39,7 @@ type RecCache struct {
 type recEntry struct {
 	val []byte
 	exp time.Time
+	set time.Time
 }
 
 var errMiss = errors.New("recording cache: miss") //nolint:goerr113
@@ -66,7 +68,12 @@ func (c *RecCache) Get(_ context.Context, key string) ([]byte, error) {
 		ok = false
 	}
 
-	c.Gets = append(c.Gets, GetRec{Key: key, Hit: ok})
+	rec := GetRec{Key: key, Hit: ok}
+	if ok {
+		rec.Age = c.now().Sub(e.set)
+	}
+
+	c.Gets = append(c.Gets, rec)
 
 	if !ok {
 		return nil, errMiss
@@ -91,7 +98,7 @@ func (c *RecCache) Set(_ context.Context, key string, value []byte, ttl time.Dur
 	c.Sets = append(c.Sets, rec)
 
 	if !c.NoStore {
-		c.store[key] = recEntry{val: append([]byte(nil), value...), exp: c.now().Add(ttl)}
+		c.store[key] = recEntry{val: append([]byte(nil), value...), exp: c.now().Add(ttl), set: c.now()}
 	}
 
 	return nil
